@@ -79,6 +79,11 @@ def expected(L, R, pol, root=True, path=()):
 
 def _root(L, R, pol):
     kl, kr = kind(L), kind(R)
+    if kl != kr and pol.rules.get(()):
+        # a rule naming the merge point binds to the right-hand root node;
+        # when that root is converted (hash/set/scalar into a list, list into
+        # a set) the documentation does not say whether the rule follows it
+        raise Unspec("rule on a root that is converted to the left kind")
     if kr == "M":
         if kl == "M":
             mode = pol.mode("hashes", ())
